@@ -88,9 +88,9 @@ CHECKS = {
             "celerity() is taken from the library (C01). Cases within 1e-9 of a float boundary are don't-care unless equality is exact.",
             "3 C09"),
     "C18": ("model_checking", "hist", "exhaustive operation-history exploration (all sequences to depth 3/4) on live objects vs fresh-interpreter references",
-            "Every sequence up to depth 2 over a 20-operation alphabet (accessor calls incl. one that exercises every observed function, "
+            "Every sequence up to depth 2 over a 22-operation alphabet (accessor calls incl. one that exercises every observed function, "
             "in-place edits of efth/dir/freq by item assignment, through .coords and by writing into .values, watershed calls on other "
-            "shapes incl. the transposed shape of the observed spectra, another object, a reader call) plus depth 3 over a reduced "
+            "shapes incl. the transposed shape of the observed spectra and an empty selection, another object, reader calls incl. one whose result is edited) plus depth 3 over a reduced "
             "13-operation alphabet with at least one edit (thorough: full alphabet to depth 3, reduced to depth 4) is executed on freshly "
             "built objects in a freshly forked child; an observation battery (Dataset accessor, efth accessor, DataArray accessor, values "
             "and attrs) is compared with the battery computed in a fresh interpreter on a fresh object of the same contents (32 content states).",
@@ -113,9 +113,9 @@ CHECKS = {
             "accepts either reading.",
             "3 C14"),
     "C17": ("exploration", "hist", "exhaustive enumeration of operations and ordered operation pairs x input variants with deep before/after snapshots",
-            "The operation alphabet is built by introspection (106 operations: every public SpecArray/SpecDataset/Partition method with "
+            "The operation alphabet is built by introspection (129 operations: every public SpecArray/SpecDataset/Partition method with "
             "argument menus, selections, writers, construct helpers, free functions); every operation alone on numpy-backed, view-into-"
-            "caller-buffer, read-only, dask-backed and float32-with-NaN inputs (queries as lists and as arrays in both longitude conventions, native WW3 / SWAN datasets), and every ordered pair on the same objects; a deep bitwise snapshot of the "
+            "caller-buffer, read-only, dask-backed, float32-with-NaN and integer-direction inputs (queries as lists and as arrays in both longitude conventions, native WW3 / SWAN datasets), and every ordered pair on the same objects; a deep bitwise snapshot of the "
             "dataset, wind/depth arrays, coordinate arrays, owning buffers, query lists and keyword dicts must be unchanged.",
             "plot, to_orcaflex and to_zarr are skipped; from_<model> readers are covered by C12's native-unmodified clause.",
             "3 C17"),
